@@ -282,3 +282,77 @@ func trunc(s string, n int) string {
 	}
 	return s
 }
+
+// Burst issues requests from several goroutines at once (the handlers' lock
+// discipline under concurrency: nested read locks against a waiting writer,
+// unlock on error paths) and applies the C14 oracle to the whole batch.
+func (s *Session) Burst(pool []Req, goroutines, each int, r *vk.Rand) {
+	if s.Dead || len(pool) == 0 {
+		return
+	}
+	plan := make([][]Req, goroutines)
+	for g := range plan {
+		for k := 0; k < each; k++ {
+			rq := pool[r.Intn(len(pool))]
+			plan[g] = append(plan[g], rq)
+			if s.Journal != nil {
+				b, _ := json.Marshal(map[string]interface{}{"k": "BURST " + rq.Method + " " + routeOf(rq.URL), "target": s.T.Name, "state": s.State, "class": rq.Class, "url": trunc(rq.URL, 300), "body": trunc(rq.Body, 300)})
+				s.Journal.Write(append(b, '\n'))
+			}
+			s.Log = append(s.Log, Req{Method: rq.Method, URL: trunc(rq.URL, 200), Body: trunc(rq.Body, 200), Class: "burst|" + rq.Class})
+		}
+	}
+	type bad struct {
+		rq Req
+		o  Outcome
+	}
+	var mu sync.Mutex
+	var hung, panicked []bad
+	var wg sync.WaitGroup
+	for g := range plan {
+		wg.Add(1)
+		go func(list []Req) {
+			defer wg.Done()
+			for _, rq := range list {
+				o := do(s.T, rq, 30*time.Second)
+				mu.Lock()
+				if o.Panic != "" {
+					panicked = append(panicked, bad{rq, o})
+				}
+				if o.Hung {
+					hung = append(hung, bad{rq, o})
+				}
+				mu.Unlock()
+				if o.Hung {
+					return
+				}
+			}
+		}(plan[g])
+	}
+	wg.Wait()
+	s.Res.Count("burst_requests", int64(goroutines*each))
+	s.Res.Count("bursts", 1)
+	if len(panicked) > 0 {
+		b := panicked[0]
+		s.fail("handler-panic:"+s.T.Name+":"+b.rq.Method+" "+routeOf(b.rq.URL)+":"+panicClass(b.o.Panic), fmt.Sprintf("%s: handler panicked on %s %s among concurrent requests in state %s: %s", s.T.Name, b.rq.Method, routeOf(b.rq.URL), s.State, firstLines(b.o.Panic, 2)), b.rq, b.o)
+		return
+	}
+	if len(hung) > 0 {
+		b := hung[0]
+		s.fail("concurrent-requests-deadlocked:"+s.T.Name, fmt.Sprintf("%s: %d of %d concurrent requests never returned (30 s), first %s %s, state %s", s.T.Name, len(hung), goroutines*each, b.rq.Method, routeOf(b.rq.URL), s.State), b.rq, b.o)
+		return
+	}
+	lv := do(s.T, Req{Method: "GET", URL: s.T.Liveness}, 20*time.Second)
+	if lv.Hung || lv.Panic != "" || lv.Status == 0 {
+		s.fail("wedged-after:"+s.T.Name+":burst", fmt.Sprintf("%s: after a burst of concurrent requests the liveness request hangs=%v status=%d", s.T.Name, lv.Hung, lv.Status), Req{}, lv)
+		return
+	}
+	for i := 0; i < 2000; i++ {
+		if s.T.TryLock() {
+			s.T.Unlock()
+			return
+		}
+		time.Sleep(time.Millisecond)
+	}
+	s.fail("lock-left-held:"+s.T.Name+":burst", s.T.Name+": after a burst of concurrent requests the mutex stays locked with no request in flight", Req{}, Outcome{})
+}
